@@ -30,8 +30,8 @@ RULE = ("one case = a source (one of 7 kinds, <= 24 rows, missing/empty/duplicat
         "in {1,2,3,5,8,512}), lazy .sindex, derive (slice, take, mask, iloc, copy, column subset, "
         "concat), pickle and parquet round trips, cx[x0:x1, y0:y1] with any combination of present / "
         "omitted / reversed ends; drawn from splitmix64(VERIF_SEED, run index). Non-trivial: >= 1 cx "
-        "on an object that has (or inherited) an index and >= 3 steps; distinct = distinct "
-        "operation-sequence digests.")
+        "on an object that has (or inherited) an index and >= 3 steps; distinct = distinct (input, "
+        "operation sequence) digests.")
 ASSUMPTIONS = [
     "sequential histories only: no schedule, clock or fault in this property; pickle / parquet round "
     "trips are the 'restart' steps",
@@ -149,8 +149,9 @@ def run_case(case):
             raise
         except Bad as b:
             bad = (b.cls, b.msg)
-    digest = hashlib.sha256(json.dumps([case["kind"], case["container"], done],
-                                       default=str).encode()).hexdigest()[:16]
+    digest = hashlib.sha256(json.dumps([case["kind"], case["container"], case["values"],
+                                        case["index"], done], default=str).encode()
+                            ).hexdigest()[:16]
     st = {"events": len(done), "switches": 0, "sim_time": sim.now, "tasks": 0}
     if bad:
         return result(False, bad[0], bad[1], sig, digest, True, probes, **st)
